@@ -220,7 +220,7 @@ def main(chk):
     chk.cov["verdicts"] = hist
     chk.cov["input_distribution"] = kinds_hist
     chk.cov["rule"] = ("function bodies from {marker, defer, guarded defer (true/false guard of every built-in type), raising defer, "
-                       "return, guarded return, raise, guarded raise, failing expression, nested call}: all 1-/2-statement bodies, "
+                       "return, guarded return, raise, guarded raise, raise of each built-in error kind, a yield that stops an iterator body, failing expression, nested call}: all 1-/2-statement bodies, "
                        "(a third of) 3-statement bodies, an exit injected at every index of a defer-rich skeleton at nesting 0/1/2, "
                        "seeded random bodies of length<=6 (10 thorough), nesting<=3. non-trivial: a defer and an exit/nested call/raising "
                        "defer both occur; distinct by program text. Compared: stdout trace, outcome kind, error kind+message; "
